@@ -160,7 +160,9 @@ def run(ctx):
         "unknown word plus a suffix (argument, option, option+argument, '--' + command name, '--' + word); invariants: the selected "
         "command is the one the statement names, alias / trailing-option / separator / hidden laws; every case is replayed on "
         "ConsoleApplication.resolve_command (argv and string form alternating); simulated cases on the full family (depth 3, all "
-        "attributes) and random trees/lines are decided by ResolverTrace with the observed parsability of every command; "
+        "attributes) and random trees/lines (three configuration routes, a sub-command named like a global option, one configuration "
+        "object under two parents, empty tokens, several options in a row) are decided by ResolverTrace with the observed "
+        "parsability of every command; extensions run with it (DRIFT only): CommandCollection, Config, Suggest; "
         "non-trivial = the line has >= 2 tokens"
     )
     ctx.assumptions += [
